@@ -406,3 +406,45 @@ func cmdReplayCases(args []string) error {
 	}
 	return nil
 }
+
+func init() {
+	register("record-serial", "concurrent clients against one server: record calls, monitor message sequences and the final state", cmdRecordSerial)
+}
+
+func cmdRecordSerial(args []string) error {
+	fs := flag.NewFlagSet("record-serial", flag.ExitOnError)
+	seed := fs.Int64("seed", 1, "seed")
+	n := fs.Int("n", 20, "number of traces")
+	nclients := fs.Int("clients", 3, "concurrent clients")
+	ncalls := fs.Int("calls", 3, "transactions per client")
+	out := fs.String("o", "trace.ndjson", "output: one trace per line")
+	_ = fs.Parse(args)
+	s := abs.SmallSchema()
+	b, err := abs.Build(s, false)
+	if err != nil {
+		return err
+	}
+	f, err := os.Create(*out)
+	if err != nil {
+		return err
+	}
+	defer f.Close()
+	w := bufio.NewWriter(f)
+	defer w.Flush()
+	enc := json.NewEncoder(w)
+	dir, err := os.MkdirTemp("", "vh-sock")
+	if err != nil {
+		return err
+	}
+	defer os.RemoveAll(dir)
+	for i := 0; i < *n; i++ {
+		tr, err := rectxn.RunSerial(b, dir, *seed*10000+int64(i), *nclients, *ncalls)
+		if err != nil {
+			return err
+		}
+		if err := enc.Encode(tr); err != nil {
+			return err
+		}
+	}
+	return nil
+}
